@@ -437,6 +437,64 @@ fn one_case(t: i32, i: usize, ctx: &Ctx, rep: &mut Report) {
         }
         rep.count("header_absent_dimension_checked", 1);
     }
+    // ---- a write that fails before any byte of its record reached the file (seeded change
+    // C05-r10): the call returns the error, the caller keeps writing, and the file holds the other
+    // shapes only, so its header box is theirs alone. Judged only when an independent walk of the
+    // bytes finds exactly the shapes whose writes succeeded (anything else belongs to C12).
+    if i % 3 == 1 {
+        let j = r.usize_in(0, shapes.len());
+        let mut far = inputs[r.usize_in(0, inputs.len() - 1)].clone();
+        let sign = if r.chance(0.5) { 1.0f64 } else { -1.0 };
+        if let Some(v) = far[0].1.first_mut() {
+            for &k in &dims {
+                v[k] = (if k == 3 { 1e305 } else { sign * 1e305 }).to_bits();
+            }
+        }
+        let dest = crate::iomon::Dest::new();
+        let ran = panicmon::catch(|| -> Option<Vec<u8>> {
+            let far_shape = build_from_parts(t, &far, false);
+            let mut w = ShapeWriter::new(dest.clone());
+            for s in &shapes[..j] {
+                write_one(&mut w, s).ok()?;
+            }
+            {
+                let mut st = dest.0.borrow_mut();
+                let at = st.attempts;
+                st.fault = crate::iomon::FaultPlan { at: Some(at), ..Default::default() };
+            }
+            if write_one(&mut w, &far_shape).is_ok() {
+                return None;
+            }
+            for s in &shapes[j..] {
+                write_one(&mut w, s).ok()?;
+            }
+            w.finalize().ok()?;
+            drop(w);
+            Some(dest.data())
+        });
+        match ran {
+            Ok(Some(b)) if rawshp::walk(&b).len() == shapes.len() && rawshp::header_box(&b).is_some() => {
+                let hb2 = rawshp::header_box(&b).unwrap();
+                let every_real = dumps.iter().all(|d| d.parts.iter().flatten().all(|v| f64::from_bits(v[3]) > NO_DATA));
+                for &k in &dims {
+                    if (k == 2 && !gen::has_z(t)) || (k == 3 && !(table_has_m && every_real)) {
+                        continue;
+                    }
+                    let (lo, hi) = match k {
+                        0 => (f64::from_bits(hb2[0]), f64::from_bits(hb2[2])),
+                        1 => (f64::from_bits(hb2[1]), f64::from_bits(hb2[3])),
+                        2 => (f64::from_bits(hb2[4]), f64::from_bits(hb2[5])),
+                        _ => (f64::from_bits(hb2[6]), f64::from_bits(hb2[7])),
+                    };
+                    let want = fold(&all, k).unwrap();
+                    cmp(rep, "header-after-a-write-that-failed-before-its-first-byte", t, k, lo, hi, &want, &case, &input_json);
+                    rep.count("header_components_checked_after_a_failed_write", 2);
+                }
+                rep.count("failed_write_histories_judged", 1);
+            }
+            _ => rep.count("failed_write_histories_not_judged(file does not hold exactly the accepted shapes)", 1),
+        }
+    }
     rep.nontrivial(&format!("{}:{}:{}:{}:{}", t, n, at_str(lo_at), regime, dumps.iter().map(|d| d.npoints()).sum::<usize>()));
     rep.class(&format!("xmin-at:{}", at_str(lo_at)));
     rep.sample(|| J::obj(vec![("case", J::s(case.clone())), ("shapes", J::UInt(n as u64)), ("header_box_bits", J::Arr(hb.iter().map(|b| J::hex(*b)).collect())), ("first_shape", dumps[0].to_json())]));
@@ -498,6 +556,8 @@ pub fn run(ctx: &Ctx) -> Report {
         rep.guard("header components checked", h, (TYPES.len() * n) as u64);
         let m = rep.counters.get("header_m_checked(all-real-measures)").copied().unwrap_or(0);
         rep.guard("header M checked on all-real-measure files", m, if cfg!(miri) { 1 } else { 50 });
+        let f = rep.counters.get("failed_write_histories_judged").copied().unwrap_or(0);
+        rep.guard("histories with a failed write judged", f, if cfg!(miri) { 1 } else { 100 });
     }
     rep
 }
